@@ -134,6 +134,10 @@ def contracts(Ty: Types, reg: Registry, ctx, pid="C01"):
                 ("ownership:BEGIN-IMMEDIATE-first-one-connection", ownership), ("selected-by-the-given-id", select_by_id),
                 ("stored-row-and-request-handed-to-the-state-machine-unchanged", decoded_row_validated),
                 ("one-UPDATE-binding-exactly-the-returned-record-then-commit", accepted_write)]),
+            Case("commit-fault", raises="OperationalError", ensures=[
+                ("ownership:BEGIN-IMMEDIATE-first-one-connection", ownership),
+                ("a-failed-commit-leaves-the-stored-record-as-it-was(rolled back with the transaction)",
+                 lambda c: T(not any(e.get("ev") == "commit" for e in all_events(c.st))))]),
         ],
         properties=[pid, "C02"])
     reg.add(atomic)
